@@ -7,7 +7,7 @@ import kernel_part
 
 # C02b: the table of constructors (which operator hands which kind of subscriber upstream) regenerated from the source is the
 # premise of the concurrent clause ("observables built with the default/safe constructors")
-LEAN_MODULES = ['C01'] + kernel_part.LEAN_MODULES + ['C02b']
+LEAN_MODULES = ['C01'] + kernel_part.LEAN_MODULES + ['C02b', 'C10']
 
 MANIFEST = dict(
     text="Proved in Lean for every raw producer script (legal or not): the subscriber/observer gate delivers a Grammar-conforming prefix and delivered++dropped = raw "
@@ -91,6 +91,22 @@ def check(ctx):
     rows = [r for r in R.run_kind(ctx, 'nilobs', shards=2) if ' ctor=' in r[0] and ' faults=- ' in r[0] + ' ']
     R.compare(ctx, rows, proj_all, 'C01 partial observers: what the one callback and the dropped-notification hook saw', oracle=oracle_grammar, oracle_is_property=True,
               nontrivial=lambda c, gd: True, max_report=2)
+    # subjects as producers' ends: every subscriber of a subject - also one that arrives after the subject has terminated and after illegal
+    # late notifications (a Complete after an Error, values after a terminal) - sees values, at most one terminal, then silence, and the
+    # late notifications go to the dropped hook (step functions and their theorems: RoProps/C10; C01 reads the kinds and the drops)
+    def proj_subj(d):
+        return (flag(d),) + tuple(tuple(kinds(d.get(k))) for k in ('r0', 'r1', 'r2')) + (d.get('drops'),)
+
+    def oracle_subj(case, gd):
+        if flag(gd):
+            return f'harness flag {flag(gd)}'
+        for k in ('r0', 'r1', 'r2'):
+            if not grammar_ok(gd.get(k)):
+                return f'grammar: subscriber {k[1]} of the subject was delivered a notification after a terminal'
+        return None
+    rows = R.run_kind(ctx, 'subject')
+    R.compare(ctx, rows, proj_subj, 'C01 subscribers of a subject (late notifications, late subscribers): kinds delivered and notifications dropped',
+              oracle=oracle_subj, oracle_is_property=True, nontrivial=lambda c, gd: any(gd.get(k, '-') != '-' for k in ('r0', 'r1', 'r2')), max_report=2)
     return dict(search=combine_search(k.get('search'), table_after_search), assumptions=k.get('assumptions'), extra=k.get('extra'), rule=(k.get('rule', '') + '; ' if k.get('rule') else '') + 'random chains of 2-5 int->int operators (sync/hot, cuts) + ' + 'every catalogue operator x parameters x variants x raw scripts (exhaustive to length 2/3 over {-1,0,2,3}, three endings, '
                      'illegal suffixes N/C/E after the terminal, seeded longer scripts) x {sync, hot} source x external cut; '
                      'compared: kinds of delivered notifications + multiset of dropped notifications; oracle: Grammar on the implementation trace; '
